@@ -310,7 +310,10 @@ Definition parse_string (ts : list jtoken) : pres (option jvalue) :=
   | Some (tok, rest) =>
       match json_string_decode (tbytes tok) with
       | None => Res None [DInvalidString] rest
-      | Some s => Res (Some (JStr s)) [] rest
+      | Some s =>
+          (* err == nil && !utf8.Valid(tok.Bytes) *)
+          if negb (utf8_valid (tbytes tok)) then Res None [DInvalidString] rest
+          else Res (Some (JStr s)) [] rest
       end
   end.
 
